@@ -69,18 +69,32 @@ def eval_shard(ctx, name, cases):
     return res, None
 
 
+def case_weight(c):
+    return 20 + len(c["events"]) * (2 + len(c["steps"]))
+
+
 def model_eval(ctx, cases, tag="cases"):
-    """-> dict case-position -> verdict list [stage, idx, C01, C02, C03, C15] for the cases that are not clean."""
-    shards = [cases[i:i + SHARD] for i in range(0, len(cases), SHARD)]
+    """-> dict case-position -> verdict list [stage, idx, C01, C02, C03, C15] for the cases that are not clean.
+    Shards are cut by weight (events x steps) so that wide DAGs do not make one shard slow."""
+    shards, cur, w = [], [], 0
+    for pos, c in enumerate(cases):
+        cw = case_weight(c)
+        if cur and (w + cw > 12000 or len(cur) >= SHARD):
+            shards.append(cur)
+            cur, w = [], 0
+        cur.append((pos, c))
+        w += cw
+    if cur:
+        shards.append(cur)
     with ThreadPoolExecutor(max_workers=14) as ex:
-        results = list(ex.map(lambda t: eval_shard(ctx, "%s_%d" % (tag, t[0]), t[1]), enumerate(shards)))
+        results = list(ex.map(lambda t: eval_shard(ctx, "%s_%d" % (tag, t[0]), [c for _, c in t[1]]), enumerate(shards)))
     bad = {}
-    for si, (res, err) in enumerate(results):
+    for sh, (res, err) in zip(shards, results):
         if res is None:
             ctx.fail("correspondence", "the model could not be evaluated on a shard of cases (coqc failed)", {"log": err})
             continue
         for item in res:
-            bad[si * SHARD + item[0]] = list(item[1:])
+            bad[sh[item[0]][0]] = list(item[1:])
     return bad
 
 
@@ -421,9 +435,35 @@ def describe(v):
     return t % idx if "%d" in t else t
 
 
+def stale_flip_signature(c):
+    """Decidable signature of the done == nil stale-worker flip on an observed run: a step with a retry policy is seen
+    'finished' (in a snapshot taken at some Run entry, or in the final table) although none of its attempts so far
+    had succeeded; or a dependent enters Run while such a dependency (no successful attempt yet) is back to
+    not-started / running (the transient 'finished' was overwritten by the retry path)."""
+    if c["done"] or c["dry"]:
+        return False
+    retrying = {i for i, s in enumerate(c["steps"]) if s["retry"] and s["rlimit"] > 0}
+    ok_seen = set()
+    for e in c["events"]:
+        if e["e"] == "s":
+            snap = e.get("snap") or []
+            for i, v in enumerate(snap):
+                if v == 4 and i in retrying and i not in ok_seen:
+                    return True
+            for d in c["steps"][e["i"]]["deps"]:
+                if d in retrying and d not in ok_seen and d < len(snap) and snap[d] in (0, 1):
+                    return True
+        elif e["e"] == "e" and e.get("ok", False):
+            ok_seen.add(e["i"])
+    for i in retrying:
+        if c["final"][i]["st"] == 4 and i not in ok_seen:
+            return True
+    return False
+
+
 def classify(c):
     """decidable class of a failing case, matched against known_findings.d"""
-    return {"dry": c["dry"], "done": c["done"], "has_retry": any(s["retry"] and s["rlimit"] > 0 for s in c["steps"])}
+    return {"dry": c["dry"], "done": c["done"], "stale_flip": stale_flip_signature(c)}
 
 
 def dbg(msg):
@@ -527,7 +567,16 @@ def run_family(ctx, pid, replay_cases=None):
         "scripted executor `verifscript` (harness/cmd/sched) stands for the command executor; retry intervals are observed "
         "with a tolerance of %d us, never proved" % EPS,
     ]
-    ctx.assumptions = ["runs without stop request / timeout (those are C04/C05)", "no repeatPolicy steps in the generated DAGs"]
+    ctx.cov["trusted_base"] += [
+        "theorem premise norepeat: no step has a repeatPolicy (repeating steps belong to C05; the generated DAGs have none)",
+        "theorem premise wf_deps (only C15_progress / C15_can_complete): the dependency relation has a rank function, i.e. is "
+        "acyclic with all names resolved - what NewExecutionGraph guarantees (C14)",
+        "acceptor Sched/Replay.v is proved sound (accept_sound: accepted trace => execution of the model with that visible "
+        "projection and final table); its completeness is what this run measures",
+    ]
+    ctx.assumptions = ["runs without stop request / timeout (those are C04/C05)", "no repeatPolicy steps in the generated DAGs",
+                       "Schedule is given a done channel as the agent does (1 run in 16 passes nil like the package's tests; the "
+                       "stale-worker flip of that path is a recorded finding: findings/C01-done-nil-stale-flip.json)"]
     if pid == "C03" and replay_cases is None:
         dbg("agent dry part")
         agent_dry_part(ctx)
@@ -561,6 +610,6 @@ def replay_family(ctx, pid, path):
         cases.append(body["failing_input"])
     if isinstance(body.get("case"), dict) and "steps" in body["case"]:
         cases.append(body["case"])
-    # timing dependent: each case is re-run several times
-    cases = [dict(c) for c in cases for _ in range(5)]
+    # timing dependent: each case is re-run several times (a replay file may ask for more with "repeat")
+    cases = [dict(c) for c in cases for _ in range(int(body.get("repeat", 5)))]
     return run_family(ctx, pid, replay_cases=cases)
